@@ -2,6 +2,8 @@
 //!
 //! usage: implrun <driver> [args] < cases > results     (one result line per case line)
 mod activepeers;
+mod adversary;
+mod certs;
 mod codec;
 mod codegen;
 mod fabric;
@@ -21,6 +23,7 @@ fn main() {
     util::install_panic_hook();
     match args[1].as_str() {
         "activepeers" => activepeers::run(),
+        "certs" => certs::run(),
         "codec" => codec::run(),
         "codegen" => codegen::run(),
         "simnet" => simnet::run(),
